@@ -121,6 +121,7 @@
 static int pad_basic(bn_t m, size_t *p_len, size_t m_len, size_t k_len, int op) {
 	uint8_t pad = 0;
 	int result = RLC_ERR;
+	size_t d_len = m_len;
 	bn_t t;
 
 	RLC_TRY {
@@ -153,7 +154,9 @@ static int pad_basic(bn_t m, size_t *p_len, size_t m_len, size_t k_len, int op) 
 						bn_rsh(t, m, 8 * m_len);
 						pad = (uint8_t)t->dp[0];
 					} while (pad == 0 && m_len > 0);
-					if (pad == RSA_PAD) {
+					/* A signed digest stands right after the marker. */
+					if (pad == RSA_PAD &&
+							(op == RSA_DEC || k_len - *p_len == d_len)) {
 						result = RLC_OK;
 					}
 					bn_mod_2b(m, m, (k_len - *p_len) * 8);
